@@ -70,9 +70,16 @@ pub fn judge(ctx: &Ctx, l: &mut Local, lat: f64, lon: f64) {
         Rotation::Ccw => "CCW",
     };
     let text = q.to_string();
-    let want_text = format!("{:.1}° {}", d.abs(), label);
-    if rot != label || text != want_text {
-        ctx.violation("label_and_text_agree_with_sign_and_magnitude", &key, case.clone(), json!({"degrees": d, "rotation": rot, "text": text, "expected_text": want_text}));
+    // the printed text: layout is free, but it must carry the rotation label as a word and the magnitude
+    // (checked at the precision it is printed with)
+    let has_label = text.split(|c: char| !c.is_ascii_alphabetic()).any(|w| w == label);
+    let other = if label == "CW" { "CCW" } else { "CW" };
+    let has_other = text.split(|c: char| !c.is_ascii_alphabetic()).any(|w| w == other);
+    let num: String = text.chars().skip_while(|c| !c.is_ascii_digit()).take_while(|c| c.is_ascii_digit() || *c == '.').collect();
+    let decimals = num.split('.').nth(1).map(|f| f.len()).unwrap_or(0) as i32;
+    let mag_ok = num.parse::<f64>().map(|v| (v - d.abs()).abs() <= 0.5 * 10f64.powi(-decimals) + 1e-9).unwrap_or(false);
+    if rot != label || !has_label || has_other || !mag_ok {
+        ctx.violation("label_and_text_agree_with_sign_and_magnitude", &key, case.clone(), json!({"degrees": d, "rotation": rot, "expected_label": label, "text": text}));
     }
     for e in ELEVS {
         let qe = lib(|| case.clone(), || Qibla::new(mk(e)));
